@@ -209,6 +209,34 @@ def step (d : DState) (t : List String) : DState × List String :=
   | ["write_from_whole_string", b, hex] => match B b, parseHex? hex with
     | some b, some bs => exec d (.write b bs bs.length) [b] []
     | _, _ => bad
+  | ["normalize_dir_sep", b] => match B b with
+    | some b => if d.forgedB.contains b then (d, ["P skip forged"]) else exec d (.normalizeSep b) [b] []
+    | _ => bad
+  | ["string_from_cursor", c] => match C c with
+    -- aws_string_new_from_cursor: a fresh string holding exactly the cursor's bytes (and a terminator)
+    | some c =>
+      if stale d c then (d, ["P skip stale"]) else
+      if (d.s.curs c).len > LIMIT then (d, ["P skip huge"]) else
+      match (d.s.curs c).load d.s.mem.heap 0 (d.s.curs c).len with
+      | .ok cells => (d, [s!"P r OK len={cells.length} nul=1 {hexOf (cells.map cellVal)}"])
+      | .error f => (d, [s!"P FAULT {repr f}"])
+    | _ => bad
+  | ["string_from_buf", b] => match B b with
+    | some b =>
+      if d.forgedB.contains b then (d, ["P skip forged"]) else
+      match (d.s.bufs b).asCur.load d.s.mem.heap 0 (d.s.bufs b).len with
+      | .ok cells => (d, [s!"P r OK len={cells.length} nul=1 {hexOf (cells.map cellVal)}"])
+      | .error f => (d, [s!"P FAULT {repr f}"])
+    | _ => bad
+  | ["is_zeroed", c] => match C c with
+    -- aws_is_mem_zeroed(cursor.ptr, cursor.len)
+    | some c =>
+      if stale d c then (d, ["P skip stale"]) else
+      if (d.s.curs c).len > LIMIT || (d.s.curs c).rid.isNone then (d, ["P skip precondition"]) else
+      match (d.s.curs c).load d.s.mem.heap 0 (d.s.curs c).len with
+      | .ok cells => (d, [s!"P r pred {if cells.all (fun x => cellVal x == 0) then 1 else 0}"])
+      | .error f => (d, [s!"P FAULT {repr f}"])
+    | _ => bad
   | ["hash_ignore_case", c] => match C c with
     | some c => guarded d [c] [] fun _ => exec d (.hashIgnoreCase c) [] []
     | _ => bad
